@@ -12,6 +12,8 @@ let () =
   | [_; "span"; file] -> Span_driver.main file
   | [_; ("parse" | "render"); file] ->
     iter_lines file (fun line ->
+      (* a case the driver cannot read or run must not take the rest of its shard with it *)
+      try
       match Lex_driver.run_line line with
       | Some out -> print_endline out
       | None ->
@@ -23,5 +25,10 @@ let () =
           | None ->
             match Render_driver.run_line line with
             | Some out -> print_endline out
-            | None -> print_endline "(unsupported-case)")
+            | None -> print_endline "(unsupported-case)"
+      with
+      | Stack_overflow -> print_endline "(MODEL-ERROR stack-overflow)"
+      | Failure m -> print_endline ("(MODEL-ERROR failure " ^ String.escaped m ^ ")")
+      | Not_found -> print_endline "(MODEL-ERROR not-found)"
+      | Invalid_argument m -> print_endline ("(MODEL-ERROR invalid-argument " ^ String.escaped m ^ ")"))
   | _ -> prerr_endline "usage: driver (--alphabet | span FILE | parse FILE)"; exit 2
